@@ -265,8 +265,10 @@ JANET_CORE_FN(os_exit,
     } else {
         status = EXIT_FAILURE;
     }
+    /* argv lives on the fiber stack, which janet_deinit frees */
+    int force = argc >= 2 && janet_truthy(argv[1]);
     janet_deinit();
-    if (argc >= 2 && janet_truthy(argv[1])) {
+    if (force) {
         _Exit(status);
     } else {
         exit(status);
